@@ -12,12 +12,16 @@
    Steps: the wire models expose fuel, not a step counter; C02_walker_steps_partial bounds the
    steps of a step-counting skeleton of the recursive walkers for EVERY head parser that makes
    progress — it is not instantiated per format (no per-format C02_F_steps).
-   NOT here (see checks/C02.py): json decoding (only its skip scanner has a totality lemma);
-   typed destinations and io.Reader transports; real time and memory (harness oracle). *)
+   json (C02_json_terminates, C02_only_recoverable_json, assembled in C02/JsonBridge.v from
+   Wire/JsonTotal.v / JsonProofs.v / JsonLeaf.v): the same fuel, for every leaf implementation with a
+   total string decoder and in particular for C09's string code (the leaf the Wjson correspondence runs).
+   NOT here (see checks/C02.py): typed destinations of the binary formats and io.Reader transports;
+   real time and memory (harness oracle). *)
 From Coq Require Import List NArith ZArith Lia Bool.
 From Verif Require Import Base.Outcome Wire.Item Gen.Consts.
 From Verif Require Wire.Cbor Wire.Msgpack Wire.Simple Wire.Binc Wire.Json.
 From Verif Require Import C02.Bridge C02.Alloc C02.AllocProofs C02.Steps C02.StepsProofs.
+From Verif Require Wire.JsonTotal Wire.JsonLeaf C02.JsonBridge.
 Import ListNotations.
 
 (* from Wcbor dec_total / skip_total (Wire/CborTotal.v); the walker from any entry depth d *)
@@ -47,10 +51,97 @@ Theorem C02_binc_terminates : forall (o : Binc.dopts) (st : Binc.dstate) (b : li
 Proof. exact binc_terminates. Qed.
 Print Assumptions C02_binc_terminates.
 
-(* PARTIAL: json has a totality lemma for its skip / raw scanner only (W_json_skip_total) *)
+(* PARTIAL (kept; superseded by C02_json_terminates): the skip / raw scanner only (W_json_skip_total) *)
 Theorem C02_json_skip_terminates_partial : forall (b : list N), Json.skip (fuelK b) b <> OutOfFuel.
 Proof. exact json_skip_terminates. Qed.
 Print Assumptions C02_json_skip_terminates_partial.
+
+(* json, FULL (from W_json_dec_total / W_json_dec_naked_total / W_json_skip_total and
+   W_json_leaf_total).  For EVERY leaf implementation L whose string decoder ends and never hands
+   back more unread input than it was given ([leaf_total], the only thing totality needs of the
+   lexical leaves), every option vector and every byte list b, never OutOfFuel:
+   Decode(&interface{}) on a fresh Decoder with fuel K*(len+1); one decode call from ANY tokenizer
+   state (any input, any pending token), depth and position — value, key of a
+   map[interface{}]interface{} (key = true) — with fuel 2*pending+1; the typed string read of a
+   map[string]interface{} key (DecodeStringAsBytes: no fuel); any number of successive Decode calls
+   on one Decoder; the skip scanner and Raw capture (nextValueBytes), fresh or from any state. *)
+Theorem C02_json_terminates_anyleaf : forall (L : Json.leaf), JsonTotal.leaf_total L ->
+  forall (D : Json.dopts) (b : list N),
+    Json.dec_naked L D (fuelK b) b <> OutOfFuel /\
+    (forall (s : Json.st) (fuel : nat) (dp : Z) (key : bool),
+       (2 * Json.pending s + 1 <= fuel)%nat -> Json.dec L D fuel dp key s <> OutOfFuel) /\
+    (forall s, Json.dec_strkey L s <> OutOfFuel) /\
+    (forall (n : nat) (total : N) (s : Json.st), Json.dec_seq L D n total s <> OutOfFuel) /\
+    Json.skip (fuelK b) b <> OutOfFuel /\ Json.raw b <> OutOfFuel /\ (forall s, Json.nvb s <> OutOfFuel).
+Proof. exact JsonBridge.json_total. Qed.
+Print Assumptions C02_json_terminates_anyleaf.
+
+(* [JsonBridge.json_total_stmt L] is, literally, the conclusion of C02_json_terminates_anyleaf
+   (everything after "leaf_total L ->"; see C02_json_stmt_is below).  It holds for every leaf with a
+   total string decoder, UNCONDITIONALLY for C09's string code (quoteStr / dblQuoteStringAsBytes
+   model; its totality is proved in Wire/JsonLeaf.v) under every float/time oracle O, and for the
+   concrete leaf [c09_leaf T] (C09's string code + tables of observed float / time texts) that the
+   Wjson correspondence evaluates against the implementation. *)
+Theorem C02_json_terminates :
+  (forall L : Json.leaf, JsonTotal.leaf_total L -> JsonBridge.json_total_stmt L) /\
+  (forall O : JsonLeaf.oracle, JsonBridge.json_total_stmt (JsonLeaf.c09_leaf_of O)) /\
+  (forall T : Json.tables, JsonBridge.json_total_stmt (Json.c09_leaf T)).
+Proof. exact JsonBridge.json_terminates. Qed.
+Print Assumptions C02_json_terminates.
+
+Example C02_json_stmt_is : forall L, JsonBridge.json_total_stmt L =
+  (forall (D : Json.dopts) (b : list N),
+    Json.dec_naked L D (fuelK b) b <> OutOfFuel /\
+    (forall (s : Json.st) (fuel : nat) (dp : Z) (key : bool),
+       (2 * Json.pending s + 1 <= fuel)%nat -> Json.dec L D fuel dp key s <> OutOfFuel) /\
+    (forall s, Json.dec_strkey L s <> OutOfFuel) /\
+    (forall (n : nat) (total : N) (s : Json.st), Json.dec_seq L D n total s <> OutOfFuel) /\
+    Json.skip (fuelK b) b <> OutOfFuel /\ Json.raw b <> OutOfFuel /\ (forall s, Json.nvb s <> OutOfFuel)).
+Proof. reflexivity. Qed.
+
+(* json: every outcome of both parsers is a value or an Err class (what the Decode boundary
+   recovers) — Decode on a fresh Decoder, a decode call from any state / depth / position with the
+   fuel of that state, sequences of Decode calls, skip, Raw capture, nextValueBytes from any state;
+   for every total leaf, for C09's string code under every oracle, for [c09_leaf T] *)
+Theorem C02_only_recoverable_json :
+  (forall L : Json.leaf, JsonTotal.leaf_total L -> JsonBridge.json_recoverable_stmt L) /\
+  (forall O : JsonLeaf.oracle, JsonBridge.json_recoverable_stmt (JsonLeaf.c09_leaf_of O)) /\
+  (forall T : Json.tables, JsonBridge.json_recoverable_stmt (Json.c09_leaf T)).
+Proof. exact JsonBridge.only_recoverable_json. Qed.
+Print Assumptions C02_only_recoverable_json.
+
+Example C02_json_recoverable_stmt_is : forall L, JsonBridge.json_recoverable_stmt L =
+  (forall (D : Json.dopts) (b : list N),
+    ((exists v, Json.dec_naked L D (fuelK b) b = Ok v) \/ (exists e, Json.dec_naked L D (fuelK b) b = Err e)) /\
+    (forall (s : Json.st) (dp : Z) (key : bool),
+       (exists v, Json.dec L D (Json.dec_fuel s) dp key s = Ok v) \/ (exists e, Json.dec L D (Json.dec_fuel s) dp key s = Err e)) /\
+    (forall (n : nat) (total : N) (s : Json.st),
+       (exists v, Json.dec_seq L D n total s = Ok v) \/ (exists e, Json.dec_seq L D n total s = Err e)) /\
+    ((exists v, Json.skip (fuelK b) b = Ok v) \/ (exists e, Json.skip (fuelK b) b = Err e)) /\
+    ((exists v, Json.raw b = Ok v) \/ (exists e, Json.raw b = Err e)) /\
+    (forall s, (exists v, Json.nvb s = Ok v) \/ (exists e, Json.nvb s = Err e))).
+Proof. reflexivity. Qed.
+
+(* json non-vacuity, with C09's string code as the leaf: unterminated containers / escapes end in an
+   error; a document decodes with the stated fuel and with 7 units, 3 are too few (the bound is not
+   met by accident); a sequence of Decode calls ends at the end of input; the scanner skips braces
+   inside strings *)
+Example C02_json_nonvacuous :
+  let Lf := Json.c09_leaf (Json.mktables [] [] [] []) in
+  let D := Json.mkdopts false false false false 0 in
+  JsonTotal.leaf_total Lf /\
+  Json.dec_naked Lf D (fuelK [91; 91; 91]%N) [91; 91; 91]%N = Err EEof /\
+  Json.dec_naked Lf D (fuelK [34; 92; 117]%N) [34; 92; 117]%N = Err EEof /\
+  fuelK [91; 49; 44; 34; 97; 34; 93; 32]%N = 18%nat /\
+  Json.dec_naked Lf D 18 [91; 49; 44; 34; 97; 34; 93; 32]%N = Ok (IArr [IUint 1; IStr [97%N]], [32%N]) /\
+  Json.dec_naked Lf D 7 [91; 49; 44; 34; 97; 34; 93; 32]%N = Ok (IArr [IUint 1; IStr [97%N]], [32%N]) /\
+  Json.dec_naked Lf D 3 [91; 49; 44; 34; 97; 34; 93; 32]%N = OutOfFuel /\
+  Json.dec_seq Lf D 3 6 (Json.st0 [49; 32; 91; 93; 32; 123]%N) = Err EEof /\
+  Json.skip 0 [123; 34; 125; 34; 58; 91; 93; 125; 55]%N = Ok [55%N] /\ Json.skip 0 [123; 34; 125]%N = Err EEof.
+Proof.
+  cbv zeta. split; [rewrite JsonLeaf.c09_leaf_eq; apply JsonLeaf.c09_leaf_total |].
+  vm_compute. repeat apply conj; reflexivity.
+Qed.
 
 (* every outcome of both parsers of the four binary formats is a value or an Err class *)
 Theorem C02_only_recoverable :
